@@ -21,6 +21,9 @@ that fact on the parsed trees and are skipped when it does not hold.
   f(x)                              ==>           (x a local assigned last in both arms and used nowhere else:
                                                    the consumer statement is sunk into the arms)
 
+  x.wait(timeout=None)              ==>          x.wait()           (get/wait/join/receive/waitclose/waitfinish/waitall: None is
+                                                                     the default of `timeout` in the stdlib and in this package)
+
   f(a, p2=b, p3=c)                  ==>          f(a, b, c)         (callee resolved by a name that has one signature
                                                                      in the repository; keywords must name exactly the
                                                                      next positional parameters)
@@ -577,6 +580,16 @@ class _Expr(ast.NodeTransformer):
                 acc = ast.BinOp(left=acc, op=ast.Add(), right=x)
             self.n.hit("join->concat")
             return ast.fix_missing_locations(ast.copy_location(acc, node))
+        # an explicit "no timeout":  x.wait(timeout=None) / x.get(timeout=None) / x.join(None)  ==>  x.wait() / x.get() / x.join()
+        nm_ = f.attr if isinstance(f, ast.Attribute) else None
+        if nm_ in ("get", "wait", "join", "receive", "waitclose", "waitfinish", "waitall"):
+            kept = [k for k in node.keywords if not (k.arg == "timeout" and isinstance(k.value, ast.Constant) and k.value.value is None)]
+            if len(kept) != len(node.keywords):
+                node.keywords = kept
+                self.n.hit("timeout=None dropped")
+            if nm_ != "get" and len(node.args) == 1 and not node.keywords and isinstance(node.args[0], ast.Constant) and node.args[0].value is None:
+                node.args = []
+                self.n.hit("timeout=None dropped")
         # keywords naming exactly the next positional parameters
         if node.keywords and all(k.arg is not None for k in node.keywords) and not any(isinstance(a, ast.Starred) for a in node.args):
             name = f.attr if isinstance(f, ast.Attribute) else (f.id if isinstance(f, ast.Name) else None)
